@@ -1,10 +1,15 @@
 #!/usr/bin/env python3
-"""collect_seeds2.py Cxx ...: confirm the round-2 seeds of /tmp/mut2_Cxx/_seed/{1,2} (tools/seedtest.py) and copy the confirmed ones to
-/verif/seeded/Cxx-{4,5}/ with a meta.json"""
+"""collect_seeds2.py [--round N] Cxx ...: confirm the round-N seeds of /tmp/mutN_Cxx/_seed/{1,2} (tools/seedtest.py) and copy the confirmed
+ones to /verif/seeded/Cxx-{4,5} (round 2) / Cxx-{6,7} (round 3) with a meta.json"""
 import json, os, re, shutil, subprocess, sys
 HERE = os.path.dirname(os.path.abspath(__file__)); VERIF = os.path.dirname(HERE)
-for prop in sys.argv[1:]:
-    wt = "/tmp/mut2_%s" % prop
+ROUND = 2
+args = sys.argv[1:]
+if args and args[0] == "--round":
+    ROUND = int(args[1]); args = args[2:]
+OFFSET = {2: 3, 3: 5, 4: 7}[ROUND]
+for prop in args:
+    wt = "/tmp/mut%d_%s" % (ROUND, prop)
     for n in (1, 2):
         sd = os.path.join(wt, "_seed", str(n))
         if not os.path.exists(os.path.join(sd, "patch.diff")):
@@ -18,7 +23,7 @@ for prop in sys.argv[1:]:
         print(prop, n, "confirmed" if conf.get("confirmed") else "NOT CONFIRMED", {k: conf.get(k) for k in ("applies", "with_build", "suite_rc", "suite_fail_bins", "with_demo_rc", "without_demo_rc")}, flush=True)
         if not conf.get("confirmed"):
             continue
-        sid = "%s-%d" % (prop, n + 3)
+        sid = "%s-%d" % (prop, n + OFFSET)
         dst = os.path.join(VERIF, "seeded", sid)
         os.makedirs(dst, exist_ok=True)
         for f in os.listdir(sd):
@@ -29,7 +34,7 @@ for prop in sys.argv[1:]:
                 shutil.copytree(pth, os.path.join(dst, f), dirs_exist_ok=True)
         patch = open(os.path.join(sd, "patch.diff")).read()
         notes = open(os.path.join(sd, "notes.md")).read() if os.path.exists(os.path.join(sd, "notes.md")) else ""
-        meta = dict(id=sid, property=prop, round=2, files_touched=re.findall(r"^diff --git a/(\S+)", patch, flags=re.M),
+        meta = dict(id=sid, property=prop, round=ROUND, files_touched=re.findall(r"^diff --git a/(\S+)", patch, flags=re.M),
                     title=(notes.strip().splitlines()[0].lstrip("# ").strip() if notes.strip() else ""),
                     confirmation={k: conf.get(k) for k in ("applies", "with_build", "suite_rc", "suite_fail_bins", "with_demo_rc", "without_demo_rc", "confirmed")},
                     detected_by={})
